@@ -7,7 +7,7 @@ CLAIM = ('Kernels every planner result rests on, on the real code: PlannerStatus
          'validity assignment: passes exactly when the first state and every consecutive motion is valid, motions checked in order.')
 OUT = ('the solve loops of the ~45 geometric/multilevel planners (which states they put on the reported path, approximate bookkeeping, '
        'interruption): whole-planner runs with nearest-neighbour structures, samplers and shared_ptr/std::function plumbing are far beyond what '
-       'the IR->CBMC route holds; an RRT::solve unit with every callee stubbed was planned as a stretch and is NOT in this revision')
+       'the IR->CBMC route holds; an RRT::solve unit with every callee stubbed exists (C01_rrt.cpp, thorough tier) but is UNDECIDED - symbolic execution of the shared_ptr<PathGeometric> release path does not finish - and therefore not part of the claim')
 ASSUMPTIONS = ['state space, validity checker and motion validator are environment stubs']
 TUS = ['src/ompl/base/src/Planner.cpp', 'src/ompl/base/goals/src/GoalRegion.cpp', 'src/ompl/geometric/src/PathGeometric.cpp', 'src/ompl/base/src/SpaceInformation.cpp']
 
@@ -19,4 +19,12 @@ def queries(tier):
     for ns in ([0, 1, 2, 4] if tier == 'quick' else [0, 1, 2, 3, 4, 6, 8]):
         qs.append(Query('path_check[n=%d]' % ns, 'C01_kernels.cpp', 'harness_path_check', tus=TUS, unwind=ns + 6, timeout=to, stdmodel=('vec',), defines={'NS': ns, 'VT_VEC_CAP': ns + 4},
                         checks='none', bound='path of %d states, every validity assignment' % ns))
+    from vt.props.common_spaces import RNG_ENV
+    RTUS = ['src/ompl/geometric/planners/rrt/src/RRT.cpp', 'src/ompl/geometric/src/PathGeometric.cpp', 'src/ompl/base/src/SpaceInformation.cpp']
+    # NOT decided in this revision (symbolic execution does not finish: the shared_ptr control block of the reported path makes the
+    # devirtualised release/dispose/destroy calls fan out recursively) - kept as a thorough-tier attempt, never part of the claim unless it returns a verdict
+    for nst, mit in ([] if tier == 'quick' else [(0, 1), (1, 1)]):
+        qs.append(Query('rrt_solve[starts=%d,iterations<=%d]' % (nst, mit), 'C01_rrt.cpp', 'harness_rrt_solve', tus=RTUS, defines={'NSTART': nst, 'MAXIT': mit, 'VT_VEC_CAP': 8}, stdmodel=('vec',),
+                        cxxflags=RNG_ENV, unwind=mit + nst + 4, timeout=to, checks='none', mem_gb=20,
+                        bound='geometric::RRT::solve with %d start states, termination condition firing at evaluation 0..%d, every sampler/nearest/distance/validity/goal outcome' % (nst, mit)))
     return qs
